@@ -346,6 +346,19 @@ pub fn check_slot(index: W, offset: usize, typ: &AbiType, choices: &[u32], acc: 
         };
         return fail(what, format!("read back {back:?}"), &text);
     }
+    // the same JSON read from sources that cannot lend their text: a reader and a parsed value
+    for (route, r) in [
+        ("from_reader", guard(|| serde_json::from_reader::<_, StorageSlot>(text.as_bytes()).map_err(|e| e.to_string()))),
+        ("from_value", guard(|| serde_json::from_value::<StorageSlot>(parsed.clone()).map_err(|e| e.to_string()))),
+        ("from_slice", guard(|| serde_json::from_slice::<StorageSlot>(text.as_bytes()).map_err(|e| e.to_string()))),
+    ] {
+        match r {
+            Ok(Ok(b)) if b == slot => {}
+            Ok(Ok(b)) => return fail(&format!("entry read back through {route} differs"), format!("read back {b:?}"), &text),
+            Ok(Err(e)) => return fail(&format!("serialised entry does not deserialise through {route}"), e, &text),
+            Err(p) => return fail(&format!("deserialisation ({route}) {}", p.signature()), p.msg, &text),
+        }
+    }
     // equality ignores conflict payloads, so compare the re-serialisation as text too
     match serde_json::to_string(&back) {
         Ok(t2) if t2 == text => CaseResult::Pass,
